@@ -258,6 +258,12 @@ def check_c03(text, stmts, flat, nav=True):
                 try:
                     if g.token_index(c) != i:
                         return ('token_index', type(g).__name__, f'{c!r}: {g.token_index(c)} != {i}')
+                    # the optional search start, as an index and as a token, up to the token itself
+                    for st in {0, i // 2, i}:
+                        if g.token_index(c, st) != i:
+                            return ('token_index', type(g).__name__ + ':start', f'{c!r} from {st}: {g.token_index(c, st)} != {i}')
+                    if g.token_index(c, ch[i // 2]) != i:
+                        return ('token_index', type(g).__name__ + ':start-token', f'{c!r} from token {i // 2}')
                 except Exception as e:  # noqa
                     return ('token_index', type(g).__name__, repr(e))
             for i in range(len(ch)):
